@@ -1,6 +1,8 @@
 package core
 
 import (
+	"fmt"
+	"os"
 	"go/token"
 	"go/types"
 
@@ -203,6 +205,9 @@ func (z *Zone) ProveLE(a, b ssa.Value, c int64) bool {
 		z.node(k)
 	}
 	z.close()
+	if os.Getenv("FPDEBUG") != "" {
+		fmt.Println("ZONE", z.idx, z.d, "pos", pos, "neg", neg, "c", c, "off", off)
+	}
 	c -= off
 	switch {
 	case len(pos) == 0 && len(neg) == 0:
